@@ -149,6 +149,7 @@ def _gibbs(ctx, rbm, nv, nh, na, cond_h, cond_v, cond_a):
     starts = [list(v) for v in R.bits(nv)]
     B = len(starts)
     pur = na > 0
+    earlier = []          # (result object, snapshot of its values) of every previous call on this RBM
     for k in (0, 1, 2, 3):
         for overwrite in (False, True):
             n_pat = 1 if k == 0 else (4 if ctx.tier == "quick" else 8)
@@ -216,6 +217,26 @@ def _gibbs(ctx, rbm, nv, nh, na, cond_h, cond_v, cond_a):
                 else:
                     ctx.holds("gibbs_steps/overwrite=False-leaves-caller-tensor-untouched" + tag,
                               not isinstance(s0, st.SymTensor) and torch.equal(s0, keep) and out is not s0)
+                # chains continued across calls: results handed out earlier are never touched again
+                cur_vals = [[st._obj(out)[b, i].const_value() for i in range(nv)] for b in range(B)]
+                fresh = all((o is not out) and not (isinstance(o, st.SymTensor) and isinstance(out, st.SymTensor) and o._stor is out._stor) for o, _s in earlier)
+                intact = all([[st._obj(o)[b, i].const_value() for i in range(nv)] for b in range(B)] == snap for o, snap in earlier)
+                ctx.holds("gibbs_steps/results of earlier calls are separate tensors and stay unchanged" + tag, fresh and intact)
+                if not overwrite:
+                    earlier.append((out, cur_vals))
+                    del earlier[:-3]
+                    # continue the chain from an earlier result without overwriting it
+                    if k == 1 and pat == 0 and earlier:
+                        src, snap = earlier[-1]
+                        st.reset_logs()
+                        st.BERNOULLI_HOOK[0] = hook
+                        try:
+                            out2 = rbm.gibbs_steps(1, src, overwrite=False)
+                        finally:
+                            st.BERNOULLI_HOOK[0] = None
+                        same = [[st._obj(src)[b, i].const_value() for i in range(nv)] for b in range(B)] == snap
+                        ctx.holds("gibbs_steps/a chain continued from an earlier result with overwrite=False leaves that result untouched" + tag,
+                                  same and out2 is not src and not (isinstance(out2, st.SymTensor) and isinstance(src, st.SymTensor) and out2._stor is src._stor))
     ctx.frame("gibbs_steps/parameters-not-written")
 
 
